@@ -148,10 +148,11 @@ class HistogramBase(abc.ABC):
             dtype = dtype or np.int64
             self._frequencies = np.zeros(self.shape, dtype=dtype)
         else:
+            # Copies: the histogram owns its data (they may be the arrays of another one)
             if dtype is not None:
-                frequencies = np.asarray(frequencies, dtype=dtype)
+                frequencies = np.array(frequencies, dtype=dtype)
             else:
-                frequencies = np.asarray(frequencies)
+                frequencies = np.array(frequencies)
                 if frequencies.dtype in self.SUPPORTED_DTYPES:
                     pass  # OK
                 elif np.issubdtype(frequencies.dtype, np.integer):
@@ -170,7 +171,7 @@ class HistogramBase(abc.ABC):
         if errors2 is None:
             self.errors2 = abs(self._frequencies.copy())
         else:
-            self.errors2 = np.asarray(errors2, dtype=self.dtype)
+            self.errors2 = np.array(errors2, dtype=self.dtype)
 
         self.keep_missed = keep_missed
         # Note: missed are dealt differently in 1D/ND cases
